@@ -487,6 +487,12 @@ class Parser:
             self.raise_syntax_error_known_location("imaginary number required in complex literal", number)
         return value
 
+    def pattern_literal(self, value: ast.expr) -> ast.expr:
+        """A string literal used as a pattern: a path literal is a call, which no pattern may hold."""
+        if isinstance(value, ast.Call):
+            self.raise_syntax_error_known_location("patterns may only match literals and attribute lookups", value)
+        return value
+
     def check_fstring_conversion(self, mark: TokenInfo, name: TokenInfo) -> int:
         if mark.end != name.start:
             self.raise_syntax_error_known_range(
